@@ -9,7 +9,7 @@ place=$(head -1 "$O/demo$N.rs" | grep -oE "(tests|examples)/[A-Za-z0-9_]+\.rs" |
 [ -z "$place" ] && place="tests/demo$N.rs"
 mkdir -p "$(dirname "$place")"; cp "$O/demo$N.rs" "$place"
 name=$(basename "$place" .rs)
-run_demo() { if [[ "$place" == tests/* ]]; then cargo test --offline --test "$name" 2>&1 | grep -E "^test result|error(\[|:)" | head -3; else cargo run --offline --example "$name" >/dev/null 2>&1; echo "example exit=$?"; fi; }
+run_demo() { if [[ "$place" == tests/* ]]; then cargo test --offline --test "$name" > /tmp/confirm.$$.log 2>&1; grep -E "^test result" /tmp/confirm.$$.log | tail -1; grep -E "error(\[|:)" /tmp/confirm.$$.log | head -2; rm -f /tmp/confirm.$$.log; else cargo run --offline --example "$name" >/dev/null 2>&1; echo "example exit=$?"; fi; }
 echo "-- without patch: demo"; run_demo
 git apply "$O/patch$N.diff" || { echo "PATCH DOES NOT APPLY"; exit 2; }
 echo "-- with patch: suite"; cargo test --offline --lib 2>&1 | grep -E "^test result" | head -1; PYXIS_TEST_POINTER_SIZE=4 cargo test --offline --lib 2>&1 | grep -E "^test result" | head -1
